@@ -12,7 +12,7 @@ from .interp import Engine, OutOfSubset, Obligation
 from .libmodel import base_modenv
 from .source import SourceIndex
 
-TIMEOUT_MS = 20000
+TIMEOUT_MS = int(os.environ.get('EQLVC_TIMEOUT_MS', '60000'))
 
 
 def _mk_solver(kind, timeout_ms):
